@@ -310,10 +310,12 @@ func (a Amount) String() string {
 	if a.exp > 1000 {
 		return "NA"
 	}
-	p := intPow(10, a.exp)
-	v := a.value
+	// work with the unsigned magnitude so that the minimum int64 value,
+	// which has no positive counterpart, is also presented correctly.
+	p := uint64(intPow(10, a.exp)) //nolint:gosec
+	v := uint64(a.value)           //nolint:gosec
 	s := ""
-	if v < 0 {
+	if a.value < 0 {
 		s = "-"
 		v = -v
 	}
